@@ -51,7 +51,7 @@ TRUSTED = [
     "value conditions inside walkers are taken as 'leaf present and non-empty'; flags at their defaults",
     "int() of a \\d+ group is taken as total (the 4300-digit limit of CPython is outside the document model)",
 ]
-FLOORS = {"C02-WALK": 150, "C02-EXCL": 30, "C02-SINK": 6, "C02-FALLBACK": 20, "C02-BYTES": 15, "C02-ONCE": 100, "C02-TRIM": 8}
+FLOORS = {"C02-WALK": 150, "C02-EXCL": 30, "C02-SINK": 6, "C02-FALLBACK": 20, "C02-BYTES": 21, "C02-ONCE": 100, "C02-TRIM": 8}
 
 # ------------------------------------------------------------------------------------------------ WALK
 
@@ -842,6 +842,32 @@ def rule_bytes(ctx: Ctx) -> RuleReport:
             rep.fail(Finding("C02-BYTES", MHTML, fi.qual, "transcoded: " + anorm(bad, fi.node), f"`{short(bad, 70)}` re-encodes the HTML part before read_html sees it; read_html decodes by the page's own <meta charset>, so a page that declares the same legacy charset in the MIME header and in its <meta> tag is decoded twice (every non-ASCII character becomes mojibake)", line=bad.lineno))
         else:
             rep.ok({"fn": fi.qual, "transcoding": "none"})
+    # (d) html.parser holds back trailing character data that may end in an unfinished reference: it is delivered after feed()
+    from sa.rules.c17 import eof_sites
+
+    for rel, fi, V, close, kind, feed in eof_sites(ctx):
+        rep.unit(fi.key)
+        if close is None and kind is None:
+            rep.fail(Finding("C02-BYTES", rel, fi.qual, f"{V}.feed without flush", f"after `{short(feed, 40)}` the text html.parser still buffers is never delivered: character data after the last tag that contains '&' (a page ending in 'AT&T', 'Q&A') is missing from the text", line=feed.lineno))
+        else:
+            rep.ok({"site": f"{fi.qual}: {V}.feed(...)", "rest_of_buffer": "delivered"})
+    # (e) byte order marks: every branch that recognises one removes exactly its bytes before decoding
+    rh = ctx.p.func(X + "html_extractor.py", "read_html")
+    boms = 0
+    for i in walk_own(rh.node):
+        if isinstance(i, ast.If) and isinstance(i.test, ast.Call) and isinstance(i.test.func, ast.Attribute) and i.test.func.attr == "startswith" and i.test.args:
+            b = ctx.folder.fold(rh.module, i.test.args[0])
+            if isinstance(b, bytes) and b in (b"\xef\xbb\xbf", b"\xff\xfe", b"\xfe\xff", b"\xff\xfe\x00\x00", b"\x00\x00\xfe\xff"):
+                boms += 1
+                recv = norm(i.test.func.value)
+                cut = [n for n in i.body if isinstance(n, ast.Assign) and norm(n.targets[0]) == recv and isinstance(n.value, ast.Subscript) and norm(n.value.value) == recv and isinstance(n.value.slice, ast.Slice)
+                       and n.value.slice.upper is None and ctx.folder.fold(rh.module, n.value.slice.lower) == len(b)]
+                if cut:
+                    rep.ok({"bom": b.hex(), "stripped": len(b)})
+                else:
+                    rep.fail(Finding("C02-BYTES", X + "html_extractor.py", rh.qual, f"BOM {b.hex()} kept", f"the branch that recognises the byte order mark {b!r} does not remove it (`{recv} = {recv}[{len(b)}:]`): U+FEFF is decoded into the text and comes out in front of the body", line=i.lineno))
+    if boms < 3:
+        raise AnalysisError(f"C02-BYTES: only {boms} byte-order-mark branches recognised in read_html (3 confirmed)")
     # (c) plain text: the detector judges the whole input; the text is what the detector decoded; lossy decoding only after it failed
     dd = ctx.p.func(PLAIN, "_detect_and_decode")
     rep.unit(dd.key)
